@@ -4,3 +4,4 @@
 #undef main
 int kv_set_aln_type(char *in, int *type){ return set_aln_type(in, type); }
 int kv_cli_main(int argc, char **argv){ return kalign_cli_main(argc, argv); }
+int kv_run_kalign(struct parameters *param){ return run_kalign(param); }
